@@ -210,6 +210,9 @@ def check(R):
         hi = async_body(R, 'sc::pase::responder::PaseResponder::handle_inner')
         clr = call_bbs(hi, 'sc::pase::responder::PaseResponder::clear_session_timeout')
         R.floor('clear_session_timeout in handle_inner', len(clr), 1)
+        # an abandoned establishment slot frees itself when its expiry passes - provided nobody but its owner can push the expiry out
+        from C02 import slot_owner_rule
+        slot_owner_rule(R)
 
     # ---- f --------------------------------------------------------------------
     with R.clause('f'):
